@@ -105,8 +105,9 @@ Check(e, EE, F, S, L, P) ==
             IF ~P[t] \/ Ev[3].st[t] = "failed" THEN {}           \* judged after input staging
             ELSE IF Oc(t) = "DONE"
                  THEN Verdict(e, L, F, t, "out", S[t] = "failed", e.st[t] = "failed")
-            ELSE IF ~Soe(t)
-                 THEN Err(NotBFiles(e) = NotBFiles(Ev[4]), "C11.OutOnlyIfDone")
+            ELSE IF ~Soe(t)          \* FAILED or CANCELED, no staging on error: nothing happens,
+                 THEN Err(NotBFiles(e) = NotBFiles(Ev[4])        \* and nothing can fail
+                          /\ (Oc(t) = "CANCELED" => e.st[t] # "failed"), "C11.OutOnlyIfDone")
             ELSE IF DirErrs(e, L, F, t, "out") # {} THEN {"N.StageOnErrorNotCarriedOut"} ELSE {}
             : t \in Tasks}
      [] OTHER -> {})
